@@ -36,6 +36,8 @@ def apply_form(s, form, pattern, rng=None):
         f = form
         if form == "mixed":
             f = rng.choice(["var", "neg", "expr", "const"]) if rng else ["var", "neg", "expr", "const"][k % 4]
+        elif form == "mixed-nc":
+            f = rng.choice(["var", "neg", "expr"]) if rng else ["var", "neg", "expr"][k % 3]
         if f == "const":
             act.append(bool(p))
         elif f == "var":
@@ -104,10 +106,15 @@ def pointwise(ctx, tag, n, post, oracle, patterns, backend=None, forms=("var",),
     return both
 
 
-def accepted_set(ctx, tag, nvars, post, oracle_set, backend=None, desc=None, cap=20000, kind="bool", dom=None):
-    """post(s, vars) posts the constraint on free caller variables; oracle_set: set of tuples."""
+def accepted_set(ctx, tag, nvars, post, oracle_set, backend=None, desc=None, cap=20000, kind="bool", dom=None, mkvars=None,
+                 on_model=None):
+    """post(s, vars) posts the constraint on free caller variables; oracle_set: set of tuples.
+    mkvars(s) -> list of caller variables (default: fresh ones); on_model(pattern) -> optional extra check, returns
+    None or a (mechanism, text) pair."""
     s = cspuz.Solver()
-    if kind == "bool":
+    if mkvars is not None:
+        vs = mkvars(s)
+    elif kind == "bool":
         vs = [s.bool_var() for _ in range(nvars)]
     else:
         vs = [s.int_var(dom[0], dom[1]) for _ in range(nvars)]
@@ -134,6 +141,12 @@ def accepted_set(ctx, tag, nvars, post, oracle_set, backend=None, desc=None, cap
             ctx.current_case["pattern"] = list(pat)
             ctx.violation(f"{tag}:accepts-invalid", f"{tag}: a pattern the definition rejects has a completion", ctx.current_case)
             return
+        if on_model is not None:
+            bad = on_model(pat)
+            if bad:
+                ctx.current_case["pattern"] = list(pat)
+                ctx.violation(bad[0], bad[1], ctx.current_case)
+                return
         if len(got) > cap:
             ctx.inconc("accepted-set cap reached", ctx.current_case)
             return
